@@ -337,3 +337,415 @@ Proof.
   rewrite lpos_scan_ref by (try lia; exact C). cbv zeta.
   apply map_ext. intros i. destruct (lp_rank o <? 0); lia.
 Qed.
+
+(* ================================================================== part 2: the keyspace *)
+(* the value invariant of the family: no empty list is ever stored *)
+Definition value_ok_list (v : value) : Prop := match v with VList l => l <> [] | _ => True end.
+Definition lists_ok (d : db) : Prop := forall k v, db_get d k = Some v -> value_ok_list v.
+
+Lemma lists_ok_empty : lists_ok empty_db.
+Proof. intros k v H. discriminate. Qed.
+
+Lemma lists_ok_purge d now : lists_ok d -> lists_ok (purge d now).
+Proof.
+  intros H k v G. rewrite db_get_purge in G. destruct (expired d now k); [discriminate|].
+  eapply H; exact G.
+Qed.
+
+Lemma db_get_set_same d k v : db_get (db_set d k v) k = Some v.
+Proof. unfold db_get, db_set. cbn. apply alookup_aset_same. Qed.
+Lemma db_get_set_other d k k0 v : k0 <> k -> db_get (db_set d k v) k0 = db_get d k0.
+Proof. intros N. unfold db_get, db_set. cbn. apply alookup_aset_other. exact N. Qed.
+Lemma db_get_del_same d k : db_get (db_del d k) k = None.
+Proof. unfold db_get, db_del. cbn. apply alookup_aremove_same. Qed.
+Lemma db_get_del_other d k k0 : k0 <> k -> db_get (db_del d k) k0 = db_get d k0.
+Proof. intros N. unfold db_get, db_del. cbn. apply alookup_aremove_other. exact N. Qed.
+Lemma db_ttl_set d k v k0 : db_ttl (db_set d k v) k0 = db_ttl d k0.
+Proof. reflexivity. Qed.
+Lemma db_ttl_del_same d k : db_ttl (db_del d k) k = None.
+Proof. unfold db_ttl, db_del. cbn. apply alookup_aremove_same. Qed.
+Lemma db_ttl_del_other d k k0 : k0 <> k -> db_ttl (db_del d k) k0 = db_ttl d k0.
+Proof. intros N. unfold db_ttl, db_del. cbn. apply alookup_aremove_other. exact N. Qed.
+
+(* a deadline belongs to a stored key *)
+Lemma wf_ttl_get d k : db_wf d -> db_get d k = None -> db_ttl d k = None.
+Proof.
+  intros (_ & _ & H3) G. unfold db_get, db_ttl in *.
+  destruct (alookup k (ttl d)) eqn:E; [|reflexivity].
+  apply alookup_Some_in in E. apply H3 in E. apply alookup_None_notin in G. contradiction.
+Qed.
+
+(* the updates list commands perform *)
+Inductive lupd : db -> db -> Prop :=
+| lupd_refl d : lupd d d
+| lupd_set d k l : l <> [] -> lupd d (db_set d k (VList l))
+| lupd_del d k : lupd d (db_del d k)
+| lupd_trans d1 d2 d3 : lupd d1 d2 -> lupd d2 d3 -> lupd d1 d3.
+
+Lemma lupd_wf d d' : lupd d d' -> db_wf d -> db_wf d'.
+Proof. induction 1; intros W; auto using db_wf_set, db_wf_del. Qed.
+
+Lemma lupd_ok d d' : lupd d d' -> lists_ok d -> lists_ok d'.
+Proof.
+  induction 1 as [d|d k l Hl|d k|d1 d2 d3 _ IH1 _ IH2]; intros Hok; auto.
+  - intros k0 v G. destruct (bytes_eq_dec k0 k) as [->|N].
+    + rewrite db_get_set_same in G. inversion G; subst. exact Hl.
+    + rewrite db_get_set_other in G by exact N. eapply Hok; exact G.
+  - intros k0 v G. destruct (bytes_eq_dec k0 k) as [->|N].
+    + rewrite db_get_del_same in G. discriminate.
+    + rewrite db_get_del_other in G by exact N. eapply Hok; exact G.
+Qed.
+
+(* list commands never create or change a deadline *)
+Lemma lupd_ttl d d' : lupd d d' -> forall k t, db_ttl d' k = Some t -> db_ttl d k = Some t.
+Proof.
+  induction 1 as [d|d k l Hl|d k|d1 d2 d3 _ IH1 _ IH2]; intros k0 t G; auto.
+  destruct (bytes_eq_dec k0 k) as [->|N].
+  - rewrite db_ttl_del_same in G. discriminate.
+  - rewrite db_ttl_del_other in G by exact N. exact G.
+Qed.
+
+Lemma put_list_nonempty d k l : l <> [] -> put_list d k l = db_set d k (VList l).
+Proof. destruct l; [congruence|reflexivity]. Qed.
+Lemma lupd_put d k l : lupd d (put_list d k l).
+Proof. destruct l; [apply lupd_del|apply lupd_set; discriminate]. Qed.
+
+Lemma raw_view_put_same d k l : raw_view (put_list d k l) k = stored l (db_ttl d k).
+Proof. destruct l; [apply raw_view_del_same|apply raw_view_set_same]. Qed.
+Lemma raw_view_put_other d k k0 l : k0 <> k -> raw_view (put_list d k l) k0 = raw_view d k0.
+Proof. intros N. destruct l; [apply raw_view_del_other|apply raw_view_set_other]; exact N. Qed.
+
+(* what the executors' lookup means in terms of the observable view *)
+Lemma get_list_view d k :
+  db_wf d -> lists_ok d ->
+  match get_list d k with
+  | LMissing => raw_view d k = None /\ db_ttl d k = None
+  | LWrong => as_list (raw_view d k) = None
+  | LFound l => raw_view d k = Some (VList l, db_ttl d k) /\ l <> []
+  end.
+Proof.
+  intros W Hok. unfold get_list, raw_view. destruct (db_get d k) as [v|] eqn:G.
+  - destruct v; try reflexivity. split; [reflexivity|]. apply (Hok k _ G).
+  - split; [reflexivity|]. apply wf_ttl_get; assumption.
+Qed.
+
+Lemma stored_nonempty l t : l <> [] -> stored l t = Some (VList l, t).
+Proof. destruct l; [congruence|reflexivity]. Qed.
+
+(* the schema "typed single-key command": lookup, WRONGTYPE, act on the list value, store back /
+   delete when empty *)
+Lemma ckey_ok d k f r d' :
+  db_wf d -> lists_ok d ->
+  match get_list d k with
+  | LWrong => r = err_wrongtype /\ d' = d
+  | LMissing => r = fst (f []) /\ ((snd (f []) = [] /\ d' = d) \/ d' = put_list d k (snd (f [])))
+  | LFound l => r = fst (f l) /\ ((snd (f l) = l /\ d' = d) \/ d' = put_list d k (snd (f l)))
+  end ->
+  accepts (CKey k f) (raw_view d) (raw_view d') r /\ lupd d d'.
+Proof.
+  intros W Hok H. pose proof (get_list_view d k W Hok) as V. cbn [accepts].
+  destruct (get_list d k) as [| |l].
+  - destruct V as [V T]. rewrite V. cbn [as_list deadline_of]. destruct H as [-> [[E ->]| ->]].
+    + split; [|apply lupd_refl]. split; [reflexivity|]. split; [rewrite E, V; reflexivity|intros k0 _; reflexivity].
+    + split; [|apply lupd_put]. split; [reflexivity|]. split.
+      * rewrite raw_view_put_same, T. reflexivity.
+      * intros k0 N. apply raw_view_put_other. intros ->. apply N. left; reflexivity.
+  - rewrite V. destruct H as [-> ->]. split; [|apply lupd_refl]. split; [reflexivity|intros k0; reflexivity].
+  - destruct V as [V Hl]. rewrite V. cbn [as_list deadline_of]. destruct H as [-> [[E ->]| ->]].
+    + split; [|apply lupd_refl]. split; [reflexivity|].
+      split; [rewrite E, V, stored_nonempty by exact Hl; reflexivity|intros k0 _; reflexivity].
+    + split; [|apply lupd_put]. split; [reflexivity|]. split.
+      * rewrite raw_view_put_same. reflexivity.
+      * intros k0 N. apply raw_view_put_other. intros ->. apply N. left; reflexivity.
+Qed.
+
+Lemma cerr_ok d : accepts CErr (raw_view d) (raw_view d) err_other /\ lupd d d.
+Proof. split; [split; [reflexivity|intros k; reflexivity]|apply lupd_refl]. Qed.
+
+Ltac inv_pair H := inversion H; subst; clear H.
+Ltac err_case H := inv_pair H; apply cerr_ok.
+
+(* ---------------------------------------------------------------- per executor *)
+Definition step_ok (n : bytes) (args : list bytes) (d : db) (r : reply) (d' : db) : Prop :=
+  exists c, ref_clause n args = Some c /\ accepts c (raw_view d) (raw_view d') r /\ lupd d d'.
+
+Lemma exec_llen_ok d args r d' :
+  db_wf d -> lists_ok d -> exec_llen d args = (r, d') -> step_ok (B "llen") args d r d'.
+Proof.
+  intros W Hok H. eexists. split; [reflexivity|]. unfold exec_llen in H.
+  destruct args as [|a0 [|k [|a2 args]]]; try (err_case H).
+  apply ckey_ok; [assumption..|].
+  destruct (get_list d k); inv_pair H; split; try reflexivity; left; split; reflexivity.
+Qed.
+
+Lemma exec_lindex_ok d args r d' :
+  db_wf d -> lists_ok d -> exec_lindex d args = (r, d') -> step_ok (B "lindex") args d r d'.
+Proof.
+  intros W Hok H. eexists. split; [reflexivity|]. unfold exec_lindex in H.
+  destruct args as [|a0 [|k [|i [|a3 args]]]]; try (err_case H).
+  unfold int_arg. destruct (atoi64 i) as [z|]; [|err_case H].
+  apply ckey_ok; [assumption..|].
+  destruct (get_list d k) as [| |l].
+  - inv_pair H. split; [reflexivity|left; split; reflexivity].
+  - inv_pair H. split; reflexivity.
+  - rewrite ref_lindex_model.
+    destruct (znth l (norm (zlength l) z)); inv_pair H; (split; [reflexivity|left; split; reflexivity]).
+Qed.
+
+Lemma exec_lrange_ok d args r d' :
+  db_wf d -> lists_ok d -> exec_lrange d args = (r, d') -> step_ok (B "lrange") args d r d'.
+Proof.
+  intros W Hok H. eexists. split; [reflexivity|]. unfold exec_lrange in H.
+  destruct args as [|a0 [|k [|s [|e [|a4 args]]]]]; try (err_case H).
+  unfold int_arg. destruct (atoi64 s) as [zs|]; [|err_case H].
+  destruct (atoi64 e) as [ze|]; [|err_case H].
+  apply ckey_ok; [assumption..|].
+  destruct (get_list d k) as [| |l].
+  - inv_pair H. split; [reflexivity|left; split; reflexivity].
+  - inv_pair H. split; reflexivity.
+  - unfold ref_lrange. cbn [fst snd]. rewrite range_elems_window.
+    destruct (window (zlength l) zs ze) as [[a b]|]; inv_pair H; (split; [reflexivity|left; split; reflexivity]).
+Qed.
+
+Lemma exec_ltrim_ok d args r d' :
+  db_wf d -> lists_ok d -> exec_ltrim d args = (r, d') -> step_ok (B "ltrim") args d r d'.
+Proof.
+  intros W Hok H. eexists. split; [reflexivity|]. unfold exec_ltrim in H.
+  destruct args as [|a0 [|k [|s [|e [|a4 args]]]]]; try (err_case H).
+  unfold int_arg. destruct (atoi64 s) as [zs|]; [|err_case H].
+  destruct (atoi64 e) as [ze|]; [|err_case H].
+  apply ckey_ok; [assumption..|].
+  destruct (get_list d k) as [| |l].
+  - inv_pair H. split; [reflexivity|left; split; reflexivity].
+  - inv_pair H. split; reflexivity.
+  - unfold ref_ltrim. cbn [fst snd]. rewrite range_elems_window.
+    destruct (window (zlength l) zs ze) as [[a b]|]; inv_pair H; (split; [reflexivity|right; reflexivity]).
+Qed.
+
+Lemma exec_lset_ok d args r d' :
+  db_wf d -> lists_ok d -> exec_lset d args = (r, d') -> step_ok (B "lset") args d r d'.
+Proof.
+  intros W Hok H. eexists. split; [reflexivity|]. unfold exec_lset in H.
+  destruct args as [|a0 [|k [|i [|v [|a4 args]]]]]; try (err_case H).
+  unfold int_arg. destruct (atoi64 i) as [z|]; [|err_case H].
+  apply ckey_ok; [assumption..|].
+  pose proof (get_list_view d k W Hok) as V.
+  destruct (get_list d k) as [| |l].
+  - inv_pair H. unfold ref_lset, pos_of. change (zlength (@nil bytes)) with 0.
+    assert (E : ((if z <? 0 then 0 + z else z) <? 0) || ((if z <? 0 then 0 + z else z) >=? 0) = true).
+    { destruct (z <? 0) eqn:A; [apply Z.ltb_lt in A|apply Z.ltb_ge in A].
+      - apply orb_true_iff. left. apply Z.ltb_lt. lia.
+      - apply orb_true_iff. right. apply Z.geb_le. lia. }
+    rewrite E. split; [reflexivity|left; split; reflexivity].
+  - inv_pair H. split; reflexivity.
+  - destruct V as [_ Hl]. unfold ref_lset. fold (norm (zlength l) z). unfold pos_of in *.
+    change (if z <? 0 then zlength l + z else z) with (norm (zlength l) z).
+    destruct ((norm (zlength l) z <? 0) || (norm (zlength l) z >=? zlength l)) eqn:E.
+    + inv_pair H. split; [reflexivity|left; split; reflexivity].
+    + inv_pair H. cbn [fst snd]. split; [reflexivity|right].
+      rewrite mapi_from_set. apply orb_false_iff in E as [E _]. rewrite E. rewrite Z.sub_0_r.
+      rewrite put_list_nonempty by (apply list_set_nonempty; exact Hl). reflexivity.
+Qed.
+
+Lemma push_cmd_ok left create d args r d' n :
+  db_wf d -> lists_ok d -> push_cmd left create d args = (r, d') ->
+  ref_clause n args = Some (match args with
+                            | _ :: k :: ((_ :: _) as vals) =>
+                              CKey k (if create then ref_push left vals else ref_pushx left vals)
+                            | _ => CErr end) ->
+  step_ok n args d r d'.
+Proof.
+  intros W Hok H RC. eexists. split; [exact RC|]. unfold push_cmd in H.
+  destruct args as [|a0 [|k [|v0 vals]]]; try (err_case H).
+  pose proof (get_list_view d k W Hok) as V.
+  assert (NE : forall l, push_all left (v0 :: vals) l <> []).
+  { intros l. rewrite push_all_model. destruct left.
+    - cbn [rev]. intros E. apply app_eq_nil in E as [E _]. apply app_eq_nil in E as [_ E]. discriminate.
+    - intros E. apply app_eq_nil in E as [_ E]. discriminate. }
+  apply ckey_ok; [assumption..|].
+  destruct (get_list d k) as [| |l].
+  - destruct create; inv_pair H.
+    + unfold ref_push. cbn [fst snd]. rewrite push_all_model. split; [reflexivity|right].
+      rewrite put_list_nonempty; [reflexivity|]. rewrite <- push_all_model. apply NE.
+    + split; [reflexivity|left; split; reflexivity].
+  - inv_pair H. split; reflexivity.
+  - destruct V as [_ Hl]. inv_pair H.
+    assert (E : (if create then ref_push left (v0 :: vals) else ref_pushx left (v0 :: vals)) l
+                = ref_push left (v0 :: vals) l).
+    { destruct create; [reflexivity|]. unfold ref_pushx. destruct l; [congruence|reflexivity]. }
+    rewrite E. unfold ref_push. cbn [fst snd]. rewrite push_all_model. split; [reflexivity|right].
+    rewrite put_list_nonempty; [reflexivity|]. rewrite <- push_all_model. apply NE.
+Qed.
+
+Lemma pop_cmd_ok left d args r d' n :
+  db_wf d -> lists_ok d -> pop_cmd left d args = (r, d') ->
+  ref_clause n args = Some (match args with
+          | [_; k] => CKey k (ref_pop1 left)
+          | [_; k; c] =>
+            match int_arg c with
+            | None => CErr
+            | Some c => if c <? 0 then CErr else if c =? 0 then CErrOr (RArr []) else CKey k (ref_popn left c)
+            end
+          | _ => CErr end) ->
+  step_ok n args d r d'.
+Proof.
+  intros W Hok H RC. eexists. split; [exact RC|]. unfold pop_cmd in H.
+  destruct args as [|a0 [|k [|c [|a3 args]]]]; try (err_case H).
+  - (* no count *)
+    pose proof (get_list_view d k W Hok) as V.
+    apply ckey_ok; [assumption..|].
+    destruct (get_list d k) as [| |l].
+    + inv_pair H. unfold ref_pop1. destruct left; (split; [reflexivity|left; split; reflexivity]).
+    + inv_pair H. split; reflexivity.
+    + destruct V as [_ Hl]. unfold ref_pop1. rewrite take_end_model. destruct left.
+      * destruct l as [|x l0]; [congruence|]. inv_pair H. split; [reflexivity|right; reflexivity].
+      * destruct (rev l) as [|x l0] eqn:E.
+        { exfalso. apply Hl. rewrite <- (rev_involutive l), E. reflexivity. }
+        inv_pair H. split; [reflexivity|right; reflexivity].
+  - (* count *)
+    unfold int_arg. destruct (atoi64 c) as [z|]; [|err_case H].
+    destruct (z <=? 0) eqn:E0; [apply Z.leb_le in E0|apply Z.leb_gt in E0].
+    + inv_pair H. destruct (z <? 0) eqn:E1; [apply cerr_ok|]. apply Z.ltb_ge in E1.
+      assert (z = 0) by lia. subst z. cbn [Z.eqb].
+      split; [split; [left; reflexivity|intros k0; reflexivity]|apply lupd_refl].
+    + destruct (z <? 0) eqn:E1; [apply Z.ltb_lt in E1; lia|].
+      destruct (z =? 0) eqn:E2; [apply Z.eqb_eq in E2; lia|].
+      pose proof (get_list_view d k W Hok) as V.
+      apply ckey_ok; [assumption..|].
+      destruct (get_list d k) as [| |l].
+      * inv_pair H. split; [reflexivity|left; split; reflexivity].
+      * inv_pair H. split; reflexivity.
+      * destruct V as [_ Hl]. rewrite popn_model by (try lia; exact Hl). cbv zeta.
+        destruct left; inv_pair H; (split; [reflexivity|right; reflexivity]).
+Qed.
+
+Lemma exec_lrem_ok d args r d' :
+  db_wf d -> lists_ok d -> exec_lrem d args = (r, d') -> step_ok (B "lrem") args d r d'.
+Proof.
+  intros W Hok H. eexists. split; [reflexivity|]. unfold exec_lrem in H.
+  destruct args as [|a0 [|k [|c [|v [|a4 args]]]]]; try (err_case H).
+  unfold int_arg. destruct (atoi64 c) as [z|]; [|err_case H].
+  apply ckey_ok; [assumption..|].
+  destruct (get_list d k) as [| |l].
+  - inv_pair H. unfold ref_lrem. change (occs v []) with 0. cbn [rem_occ_from].
+    destruct (z >? 0) eqn:A.
+    + apply Z.gtb_lt in A. rewrite Z.min_r by lia. split; [reflexivity|left; split; reflexivity].
+    + destruct (z <? 0) eqn:Bq.
+      * apply Z.ltb_lt in Bq. rewrite Z.min_r by lia. split; [reflexivity|left; split; reflexivity].
+      * split; [reflexivity|left; split; reflexivity].
+  - inv_pair H. split; reflexivity.
+  - pose proof (lrem_model z v l) as M.
+    destruct (z =? 0).
+    + destruct (remove_first v (List.length l) l) as [l' n]. rewrite <- M. inv_pair H.
+      split; [reflexivity|right; reflexivity].
+    + destruct (z >? 0).
+      * destruct (remove_first v (Z.to_nat (Z.min z (zlength l))) l) as [l' n]. rewrite <- M. inv_pair H.
+        split; [reflexivity|right; reflexivity].
+      * destruct (remove_first v (Z.to_nat (Z.min (- z) (zlength l))) (rev l)) as [l' n]. rewrite <- M. inv_pair H.
+        split; [reflexivity|right; reflexivity].
+Qed.
+
+Lemma exec_lpos_ok d args r d' :
+  db_wf d -> lists_ok d -> exec_lpos d args = (r, d') -> step_ok (B "lpos") args d r d'.
+Proof.
+  intros W Hok H. eexists. split; [reflexivity|]. unfold exec_lpos in H.
+  destruct args as [|a0 [|k [|v opts]]]; try (err_case H).
+  pose proof (lpos_parse_ref opts (mkLpos 1 None 0)) as PR.
+  pose proof (lpos_parse_ok opts) as PO.
+  change (to_ref (mkLpos 1 None 0)) with (mkRefLpos 1 None 0) in PR.
+  destruct (lpos_parse opts (mkLpos 1 None 0)) as [o|]; cbn [option_map] in PR; rewrite <- PR; [|err_case H].
+  specialize (PO o eq_refl).
+  apply ckey_ok; [assumption..|].
+  destruct (get_list d k) as [| |l].
+  - inv_pair H. unfold ref_lpos, ref_lpos_positions, to_ref. cbn [o_rank o_count o_maxlen fst snd].
+    assert (E : forall b : bool, hits_from 0 v (if b then rev [] else []) = []) by (intros []; reflexivity).
+    rewrite E. cbn [filter]. replace (if lp_maxlen o =? 0 then [] else []) with (@nil Z) by (destruct (lp_maxlen o =? 0); reflexivity).
+    rewrite skipn_nil.
+    destruct (lp_count o) as [c|].
+    + replace (if c =? 0 then [] else firstn (Z.to_nat c) []) with (@nil Z)
+        by (destruct (c =? 0); [reflexivity|rewrite firstn_nil; reflexivity]).
+      split; [reflexivity|left; split; reflexivity].
+    + split; [reflexivity|left; split; reflexivity].
+  - inv_pair H. split; reflexivity.
+  - cbv zeta in H. rewrite (lpos_model o v l PO) in H. unfold ref_lpos. cbn [fst snd].
+    change (o_count (to_ref o)) with (lp_count o).
+    destruct (lp_count o).
+    + inv_pair H. split; [reflexivity|left; split; reflexivity].
+    + destruct (ref_lpos_positions (to_ref o) v l); inv_pair H; (split; [reflexivity|left; split; reflexivity]).
+Qed.
+
+Lemma take_end_nonempty left l : l <> [] -> exists x l', take_end left l = Some (x, l').
+Proof.
+  intros Hl. rewrite take_end_model. destruct left.
+  - destruct l as [|x r]; [congruence|eauto].
+  - destruct (rev l) as [|x r] eqn:E; [|eauto].
+    exfalso. apply Hl. rewrite <- (rev_involutive l), E. reflexivity.
+Qed.
+
+Lemma put_end_nonempty left x l : put_end left x l <> [].
+Proof. destruct left; cbn; [discriminate|]. intros E. apply app_eq_nil in E as [_ E]. discriminate. Qed.
+
+Lemma db_ttl_put_other d k k0 l : k0 <> k -> db_ttl (put_list d k l) k0 = db_ttl d k0.
+Proof. intros N. destruct l; cbn [put_list]; [apply db_ttl_del_other; exact N|apply db_ttl_set]. Qed.
+
+Lemma exec_lmove_ok d args r d' :
+  db_wf d -> lists_ok d -> exec_lmove d args = (r, d') -> step_ok (B "lmove") args d r d'.
+Proof.
+  intros W Hok H. eexists. split; [reflexivity|]. unfold exec_lmove in H.
+  destruct args as [|a0 [|src [|dst [|sd [|dd [|a5 args]]]]]]; try (err_case H).
+  cbv zeta in H. unfold lower_is.
+  set (sl := is (lower sd) (B "left")) in *. set (sr := is (lower sd) (B "right")) in *.
+  set (dl := is (lower dd) (B "left")) in *. set (dr := is (lower dd) (B "right")) in *.
+  assert (DIR : forall (l r : bool), (if l then Some true else if r then Some false else None) =
+                                     if l || r then Some l else None)
+    by (intros [] []; reflexivity).
+  rewrite (DIR sl sr), (DIR dl dr).
+  destruct (sl || sr) eqn:S1; [|cbn [andb negb] in H; err_case H].
+  destruct (dl || dr) eqn:S2; [|cbn [andb negb] in H; err_case H].
+  cbn [andb negb] in H.
+  pose proof (get_list_view d src W Hok) as Vs. pose proof (get_list_view d dst W Hok) as Vd.
+  cbn [accepts].
+  destruct (get_list d src) as [| |l] eqn:Gs.
+  - (* source missing *)
+    destruct Vs as [Vs _]. inv_pair H. rewrite Vs. cbn [as_list].
+    assert (E : take_end sl [] = None) by (destruct sl; reflexivity). rewrite E.
+    split; [split; [reflexivity|intros k; reflexivity]|apply lupd_refl].
+  - inv_pair H. rewrite Vs. split; [split; [reflexivity|intros k; reflexivity]|apply lupd_refl].
+  - destruct Vs as [Vs Hl]. rewrite Vs. cbn [as_list deadline_of].
+    destruct (take_end_nonempty sl l Hl) as (x & l' & TE). rewrite TE.
+    rewrite <- (take_end_model sl l) in H. rewrite TE in H.
+    destruct (get_list d dst) as [| |ld] eqn:Gd.
+    + (* destination missing: created *)
+      destruct Vd as [Vd Td]. rewrite Vd. cbn [as_list deadline_of].
+      destruct (bytes_eqb_spec src dst) as [->|N].
+      { rewrite Gs in Gd. discriminate. }
+      inv_pair H. split; [|eapply lupd_trans; [apply lupd_put|apply lupd_set; apply (put_end_nonempty dl x [])]].
+      split; [reflexivity|]. split; [|split].
+      * intros k Hk. rewrite raw_view_set_other by (intros ->; apply Hk; right; left; reflexivity).
+        apply raw_view_put_other. intros ->. apply Hk. left; reflexivity.
+      * rewrite raw_view_set_other by exact N. apply raw_view_put_same.
+      * rewrite raw_view_set_same.
+        assert (T : db_ttl (put_list d src l') dst = None).
+        { rewrite db_ttl_put_other by congruence. exact Td. }
+        rewrite T. unfold put_end. destruct dl; reflexivity.
+    + rewrite Vd. inv_pair H. split; [split; [reflexivity|intros k; reflexivity]|apply lupd_refl].
+    + destruct Vd as [Vd Hld]. rewrite Vd. cbn [as_list deadline_of].
+      destruct (bytes_eqb_spec src dst) as [<-|N].
+      * (* rotation *)
+        inv_pair H. split; [|apply lupd_set; apply (put_end_nonempty dl x l')].
+        split; [reflexivity|]. split.
+        -- intros k Hk. apply raw_view_set_other. intros ->. apply Hk. left; reflexivity.
+        -- rewrite raw_view_set_same. unfold put_end.
+           destruct dl; [reflexivity|]. rewrite stored_nonempty; [reflexivity|].
+           intros E. apply app_eq_nil in E as [_ E]. discriminate.
+      * inv_pair H. split; [|eapply lupd_trans; [apply lupd_put|apply lupd_set; apply (put_end_nonempty dl x ld)]].
+        split; [reflexivity|]. split; [|split].
+        -- intros k Hk. rewrite raw_view_set_other by (intros ->; apply Hk; right; left; reflexivity).
+           apply raw_view_put_other. intros ->. apply Hk. left; reflexivity.
+        -- rewrite raw_view_set_other by exact N. apply raw_view_put_same.
+        -- rewrite raw_view_set_same.
+           assert (T : db_ttl (put_list d src l') dst = db_ttl d dst).
+           { apply db_ttl_put_other. congruence. }
+           rewrite T. rewrite stored_nonempty by apply put_end_nonempty.
+           unfold put_end. destruct dl; reflexivity.
+Qed.
